@@ -16,7 +16,7 @@ CHECKS_ONLY = False
 
 def one(path):
     P, mk = path.split('/')[-2], path.split('/')[-1]
-    tag = f"{P}_r2{mk}" if '/out2/' in path else (f"{P}_r3{mk}" if '/out3/' in path else (f"{P}_r4{mk}" if '/out4/' in path else (f"{P}_r5{mk}" if '/out5/' in path else (f"{P}_r6{mk}" if '/out6/' in path else (f"{P}_r7{mk}" if '/out7/' in path else f"{P}_{mk}")))))
+    tag = f"{P}_r2{mk}" if '/out2/' in path else (f"{P}_r3{mk}" if '/out3/' in path else (f"{P}_r4{mk}" if '/out4/' in path else (f"{P}_r5{mk}" if '/out5/' in path else (f"{P}_r6{mk}" if '/out6/' in path else (f"{P}_r7{mk}" if '/out7/' in path else (f"{P}_r8{mk}" if '/out8/' in path else f"{P}_{mk}"))))))
     res = {"id": tag, "property": P, "src": path}
     if CHECKS_ONLY and os.path.exists(f"{OUT}/{tag}.json"):
         res = json.load(open(f"{OUT}/{tag}.json"))
@@ -69,7 +69,7 @@ if __name__ == "__main__":
         CHECKS_ONLY = True
         sys.argv.remove("--checks-only")
     props = [a for a in sys.argv[1:] if not a.startswith("--")] or [f"C{i:02d}" for i in range(1, 21)]
-    roots = ["/tmp/mut/out", "/tmp/mut/out2", "/tmp/mut/out3", "/tmp/mut/out4", "/tmp/mut/out5", "/tmp/mut/out6", "/tmp/mut/out7"]
+    roots = ["/tmp/mut/out", "/tmp/mut/out2", "/tmp/mut/out3", "/tmp/mut/out4", "/tmp/mut/out5", "/tmp/mut/out6", "/tmp/mut/out7", "/tmp/mut/out8"]
     if "--round2" in sys.argv:
         roots = ["/tmp/mut/out2"]
     if "--round3" in sys.argv:
@@ -82,9 +82,11 @@ if __name__ == "__main__":
         roots = ["/tmp/mut/out6"]
     if "--round7" in sys.argv:
         roots = ["/tmp/mut/out7"]
+    if "--round8" in sys.argv:
+        roots = ["/tmp/mut/out8"]
     paths = sorted(p for root in roots for P in props for p in glob.glob(f"{root}/{P}/m*")
                    if os.path.isdir(p) and os.path.exists(os.path.join(p, "notes.md")))
-    with ThreadPoolExecutor(16 if CHECKS_ONLY else 4) as ex:
+    with ThreadPoolExecutor(int(os.environ.get("JV_IMPORT_JOBS", 16 if CHECKS_ONLY else 4))) as ex:
         for r in ex.map(one, paths):
             print(r["id"], "applies" if r.get("applies") else "NOAPPLY", "clean", r.get("demo_clean_rc"), "mut", r.get("demo_mutant_rc"),
                   "base", r.get("baseline_pass"), "fired", sorted((r.get("checks_fired") or {}).keys()), flush=True)
